@@ -26,6 +26,9 @@ CONSTANTS Ids,        \* transaction ids (strings)
           MaxNodes,   \* trackers ever created, including the root tracker
           MaxList,    \* transactions per block
           Impl,       \* "required" | "code"
+          Group,      \* "normal": the flush is asynchronous; "patch": commitTracker flushes synchronously
+          ForceOn,    \* BOOLEAN: blocks that were validated before are added with force = true (no look-up)
+          RestartOn,  \* BOOLEAN: the node may restart (new manager over the same DB, new root tracker)
           MaxOps      \* 0: no history (exhaustive checker); n > 0: record history, stop after n calls
 
 VARIABLES tsOf,       \* Ids -> timestamp (the id is a hash over the timestamp)
@@ -40,8 +43,9 @@ VARIABLES tsOf,       \* Ids -> timestamp (the id is a hash over the timestamp)
           dbase,      \* ids in the DB bucket
           pending,    \* tracker whose flush job is fetched but not finished (0 = worker idle)
           lastc,      \* last committed tracker (0 = none)
+          base,       \* root tracker of the running manager (changes at a restart)
           hist
-vars == <<tsOf, par, ptr, nts, nth, ntx, st, locs, cacheQ, maxTs, dbase, pending, lastc, hist>>
+vars == <<tsOf, par, ptr, nts, nth, ntx, st, locs, cacheQ, maxTs, dbase, pending, lastc, base, hist>>
 
 N == Len(par)
 Nodes == 1..N
@@ -53,7 +57,10 @@ Max(a, b) == IF a > b THEN a ELSE b
 \* ---------------------------------------------------------------- ground truth
 RECURSIVE Anc(_)
 Anc(n) == IF n = 0 THEN {} ELSE {n} \cup Anc(par[n])       \* n and its logical ancestors
-Live(n) == lastc = 0 \/ lastc \in Anc(n)                    \* not on an abandoned fork
+Live(n) == (lastc = 0 \/ lastc \in Anc(n)) /\ base \in Anc(n)  \* not on an abandoned fork, created after the last restart
+\* block timestamp below which a child of n cannot be (a root tracker has timestamp 0: the last finalized block counts)
+RECURSIVE ChainTs(_)
+ChainTs(n) == IF n = 0 THEN 0 ELSE IF nts[n] = 0 THEN ChainTs(par[n]) ELSE nts[n]
 Holds(j, id) == st[j] \in {"added", "committed"} /\ id \in Range(ntx[j])
 OnChain(id, n) == \E j \in Anc(n) : Holds(j, id)            \* id is in block n or an ancestor
 Finalized(id) == \E j \in Nodes : st[j] = "committed" /\ id \in Range(ntx[j])
@@ -118,7 +125,7 @@ FlushM(m) ==
 CommitOne(m, j) ==
   LET m1 == IF m.pending # 0 THEN FlushM(m) ELSE m
       m2 == [m1 EXCEPT !.locs = @ \cup Range(ntx[j]), !.pending = j]
-  IN IF ntx[j] = <<>> THEN FlushM(m2) ELSE m2
+  IN IF ntx[j] = <<>> \/ Group = "patch" THEN FlushM(m2) ELSE m2
 RECURSIVE CommitSeq(_, _)
 CommitSeq(m, s) == IF s = <<>> THEN m ELSE CommitSeq(CommitOne(m, Head(s)), Tail(s))
 \* trackers that tracker.Commit() of k commits, oldest first (follows the code's parent pointers)
@@ -136,23 +143,27 @@ Init == /\ tsOf \in [Ids -> 1..MaxTs]
         \* the root tracker of txIDManager.NewLogger(group, 0, 0): timestamp 0, current threshold
         /\ \E th \in Ths : nth = <<th>>
         /\ par = <<0>> /\ ptr = <<0>> /\ nts = <<0>> /\ ntx = << <<>> >> /\ st = <<"added">>
-        /\ locs = {} /\ cacheQ = <<>> /\ maxTs = 0 /\ dbase = {} /\ pending = 0 /\ lastc = 0
+        /\ locs = {} /\ cacheQ = <<>> /\ maxTs = 0 /\ dbase = {} /\ pending = 0 /\ lastc = 0 /\ base = 1
         /\ hist = <<>>
 
 \* validation of a block with timestamp ts, threshold th and transaction list l on top of block p:
 \* tracker.New(height, ts, th) on p, tracker.Add(l, false), then the window check of every transaction
 PtrFor(p) == IF st[p] = "committed" /\ ptr[p] = 0 THEN 0 ELSE p
-Block(p, ts, th, l) ==
-  /\ Can /\ p \in Nodes /\ ts > nts[p] /\ Live(p)
+Fresh(p, l) == /\ \A i \in 1..Len(l) : ~OnChain(l[i], p)
+               /\ \A i, j \in 1..Len(l) : i # j => l[i] # l[j]
+Block(p, ts, th, l, force) ==
+  /\ Can /\ p \in Nodes /\ ts > ChainTs(p) /\ Live(p)
+  \* force = true is used for blocks that passed validation before (own proposals, blocks re-executed at start-up)
+  /\ force => (ForceOn /\ Fresh(p, l) /\ AllInWindow(ts, th, l))
   \* the exhaustive checker takes accepted blocks only and judges rejections by DecisionExact
-  /\ MaxOps = 0 => (N < MaxNodes /\ AllInWindow(ts, th, l) /\ DupAt(PtrFor(p), l) = 0)
-  /\ UNCHANGED <<tsOf, locs, cacheQ, maxTs, dbase, pending, lastc>>
+  /\ MaxOps = 0 => (N < MaxNodes /\ AllInWindow(ts, th, l) /\ (force \/ DupAt(PtrFor(p), l) = 0))
+  /\ UNCHANGED <<tsOf, locs, cacheQ, maxTs, dbase, pending, lastc, base>>
   /\ LET pp == PtrFor(p)
-         d == DupAt(pp, l)
+         d == IF force THEN 0 ELSE DupAt(pp, l)
          win == AllInWindow(ts, th, l)
          ok == d = 0 /\ win /\ N < MaxNodes
          r == [op |-> "block", n |-> IF ok THEN N + 1 ELSE 0, p |-> p, ts |-> ts, th |-> th, l |-> l,
-               id |-> "", res |-> IF d # 0 THEN "dup" ELSE IF ~win THEN "window" ELSE "ok",
+               id |-> "", force |-> force, res |-> IF d # 0 THEN "dup" ELSE IF ~win THEN "window" ELSE "ok",
                cls |-> IF d # 0 /\ MaxOps # 0 THEN DupClass(pp, l, d) ELSE "", win |-> win]
      IN /\ (d = 0 /\ win) => N < MaxNodes          \* bound: accepted blocks only while there is room
         /\ IF ok THEN /\ par' = Append(par, p) /\ ptr' = Append(ptr, pp)
@@ -172,8 +183,8 @@ Commit(k) ==
         /\ locs' = m.locs /\ cacheQ' = m.cacheQ /\ maxTs' = m.maxTs /\ dbase' = m.dbase
         /\ pending' = m.pending
   /\ lastc' = k
-  /\ UNCHANGED <<tsOf, par, nts, nth, ntx>>
-  /\ Log([op |-> "commit", n |-> k, p |-> par[k], ts |-> nts[k], th |-> nth[k], l |-> <<>>, id |-> "",
+  /\ UNCHANGED <<tsOf, par, nts, nth, ntx, base>>
+  /\ Log([op |-> "commit", n |-> k, p |-> par[k], ts |-> nts[k], th |-> nth[k], l |-> <<>>, id |-> "", force |-> FALSE,
           res |-> "ok", cls |-> "", win |-> TRUE])
 
 \* the flush worker finishes the DB write of the pending list
@@ -182,20 +193,33 @@ FlushDone ==
   /\ LET m == FlushM(Mgr)
      IN /\ locs' = m.locs /\ cacheQ' = m.cacheQ /\ maxTs' = m.maxTs /\ dbase' = m.dbase
         /\ pending' = m.pending
-  /\ UNCHANGED <<tsOf, par, ptr, nts, nth, ntx, st, lastc>>
-  /\ Log([op |-> "flush", n |-> pending, p |-> 0, ts |-> 0, th |-> 0, l |-> <<>>, id |-> "",
+  /\ UNCHANGED <<tsOf, par, ptr, nts, nth, ntx, st, lastc, base>>
+  /\ Log([op |-> "flush", n |-> pending, p |-> 0, ts |-> 0, th |-> 0, l |-> <<>>, id |-> "", force |-> FALSE,
           res |-> "ok", cls |-> "", win |-> TRUE])
 
 \* tracker.Has(id, ts) on tracker n, manager.Has for n = 0 (only recorded: no state change)
 Has(n, id) ==
   /\ MaxOps # 0 /\ Can        \* (the exhaustive checker evaluates HasIsExact in every state instead)
   /\ n \in Nodes \cup {0} /\ (n # 0 => Live(n))
-  /\ UNCHANGED <<tsOf, par, ptr, nts, nth, ntx, st, locs, cacheQ, maxTs, dbase, pending, lastc>>
-  /\ Log([op |-> "has", n |-> n, p |-> 0, ts |-> 0, th |-> 0, l |-> <<>>, id |-> id,
+  /\ UNCHANGED <<tsOf, par, ptr, nts, nth, ntx, st, locs, cacheQ, maxTs, dbase, pending, lastc, base>>
+  /\ Log([op |-> "has", n |-> n, p |-> 0, ts |-> 0, th |-> 0, l |-> <<>>, id |-> id, force |-> FALSE,
           res |-> IF THas(n, id) THEN "true" ELSE "false",
           cls |-> IF THas(n, id) THEN HitClass(PtrChain(n), id) ELSE "", win |-> TRUE])
 
-Next == \/ \E p \in 1..MaxNodes, ts \in 1..MaxTs, th \in Ths, l \in Lists : Block(p, ts, th, l)
+\* the node restarts: Term() waits for the flush worker, unfinalized blocks are gone; a new manager is created over the
+\* same DB (empty locator map and cache, maxTSInDB unknown) and a new root tracker with the current threshold
+Restart(th) ==
+  /\ Can /\ RestartOn /\ N < MaxNodes
+  /\ LET m == IF pending # 0 THEN FlushM(Mgr) ELSE Mgr IN
+     /\ dbase' = m.dbase /\ locs' = {} /\ cacheQ' = <<>> /\ maxTs' = 0 /\ pending' = 0
+  /\ par' = Append(par, lastc) /\ ptr' = Append(ptr, 0) /\ nts' = Append(nts, 0) /\ nth' = Append(nth, th)
+  /\ ntx' = Append(ntx, <<>>) /\ st' = Append(st, "added") /\ base' = N + 1
+  /\ UNCHANGED <<tsOf, lastc>>
+  /\ Log([op |-> "restart", n |-> N + 1, p |-> lastc, ts |-> 0, th |-> th, l |-> <<>>, id |-> "", force |-> FALSE,
+          res |-> "ok", cls |-> "", win |-> TRUE])
+
+Next == \/ \E p \in 1..MaxNodes, ts \in 1..MaxTs, th \in Ths, l \in Lists, f \in BOOLEAN : Block(p, ts, th, l, f)
+        \/ \E th \in Ths : Restart(th)
         \/ \E k \in 1..MaxNodes : Commit(k)
         \/ FlushDone
         \/ \E n \in 0..MaxNodes, id \in Ids : Has(n, id)
@@ -207,11 +231,11 @@ Usable(n) == n \in Nodes /\ Live(n)
 \* along every chain of accepted blocks no id occurs twice
 NoDupOnChain ==
   \A n \in Nodes : Usable(n) =>
-    /\ \A i, j \in Anc(n) : (i # j /\ Usable(i) /\ Usable(j)) => Range(ntx[i]) \cap Range(ntx[j]) = {}
+    /\ \A i, j \in Anc(n) : i # j => Range(ntx[i]) \cap Range(ntx[j]) = {}
     /\ \A i, j \in 1..Len(ntx[n]) : i # j => ntx[n][i] # ntx[n][j]
 \* accepted transactions are inside (bt - th, bt + th]
 AcceptedInWindow ==
-  \A n \in Nodes : n # 1 =>
+  \A n \in Nodes : nts[n] # 0 =>
     \A i \in 1..Len(ntx[n]) : InWindow(tsOf[ntx[n][i]], nts[n], nth[n])
 \* the look-ups answer exactly "is the id on the chain ending in this block / finalized"
 HasIsExact ==
@@ -225,7 +249,7 @@ DecisionExact ==
 \* everything finalized is findable: in the locator map or (once flushed) in the DB
 TypeOK ==
   /\ pending # 0 => st[pending] = "committed"
-  /\ \A j \in Range(cacheQ) : st[j] = "committed" /\ Range(ntx[j]) \subseteq dbase
+  /\ \A j \in Range(cacheQ) : (st[j] = "committed" \/ j = base) /\ Range(ntx[j]) \subseteq dbase
   /\ \A id \in Ids : Finalized(id) => (id \in locs \/ id \in dbase)
   /\ dbase \subseteq {id \in Ids : Finalized(id)}
 \* an accepted block is exactly a block without duplicate and inside the window (action property)
